@@ -180,7 +180,16 @@ SqlAppendUnary(op, S) ==
             ELSE ApplySkip(S.skip, S.sort, S.proj, TRUE, S.a, S.b)
       [] op.o = "proj" ->
             IF S.dedup
-            THEN Bind(ApplySkip(S.skip, <<>>, S.proj, S.dedup, 0, -1), LAMBDA q :
+            THEN IF ~(ReqOp(Sort(S.sort)) \subseteq Cols(S))
+                 THEN \* (fix of finding F7) the sort needs columns this select's own
+                      \* projection drops: it cannot move to the outer query
+                      IF ~HasSlice(S) THEN Err("OrderLoss")
+                      ELSE ApplySkip(S, <<>>, SomeProj(op.cols), FALSE, 0, -1)
+                 ELSE Bind(ApplySkip(S.skip, <<>>, S.proj, S.dedup, 0, -1), LAMBDA q :
+                         ApplySkip(q, S.sort, SomeProj(op.cols), FALSE, S.a, S.b))
+            ELSE IF IsCompound(S) /\ ~(ReqOp(Sort(S.sort)) \subseteq op.cols)
+            THEN \* (fix of finding F7) the projection cannot be pushed into the operands
+                 Bind(ApplySkip(S.skip, <<>>, S.proj, S.dedup, 0, -1), LAMBDA q :
                     ApplySkip(q, S.sort, SomeProj(op.cols), FALSE, S.a, S.b))
             ELSE IF IsCompound(S)
             THEN Bind(ApplyUnary(op, S.skip.l, DefaultOpts), LAMBDA l :
